@@ -23,6 +23,10 @@ import (
 //	'N' a nil pdf.Array, 'M' a nil pdf.Dict (typed nil Go values: they cannot
 //	    come out of a file, only a caller can hand them to Copy; direct values
 //	    of the 'V' call only)
+//	'k' a name value: name R of the name family (see nameSpec), "/p23h"
+//	'y' a dictionary entry whose KEY is name R of the name family and whose
+//	    value is an integer, "=p23h" (in dictionaries and stream dictionaries
+//	    only; it takes the place of the entry /A, /B, /K, /N of its position)
 type Item struct {
 	K byte
 	R int
@@ -35,10 +39,22 @@ const (
 	innerNull    = -2
 	innerNilArr  = -3
 	innerNilDict = -4
+	// name family (see nameSpec): R = nestedNameBase - idx: the inner value is
+	// the name idx of the family; R = nestedKeyBase - idx ('T' only): the entry
+	// of the nested dictionary has the name idx as its KEY (and an integer as
+	// its value)
+	nestedNameBase = -1000
+	nestedKeyBase  = -100000
 )
 
 // inner returns the item inside a nested direct container.
 func (it Item) inner() Item {
+	if it.R <= nestedKeyBase {
+		return Item{'y', nestedKeyBase - it.R}
+	}
+	if it.R <= nestedNameBase {
+		return Item{'k', nestedNameBase - it.R}
+	}
 	switch it.R {
 	case innerStr:
 		return Item{K: 'm'}
@@ -78,6 +94,7 @@ func (it Item) refLike() bool { return it.K == 'r' || it.K == 'g' }
 //	'A' array of It        'D' dictionary, keys /A /B, values It
 //	'S' stream, variant V, optional entry /K It[0]
 //	'r' bare reference It[0] (a link of a reference chain)
+//	'q' a name object ("5 0 obj /Name endobj"), the name is It[0] (kind 'k')
 //	'n' Go nil, 'N' nil pdf.Array, 'M' nil pdf.Dict (direct values of the 'V' call only)
 type Obj struct {
 	K  byte
@@ -87,6 +104,116 @@ type Obj struct {
 
 // Graph is a source object graph; object j is written as indirect object j+1.
 type Graph []Obj
+
+// nameSpec is one member of the name family: a name that contains the byte b,
+// at its beginning or after the regular character "N", followed by one of four
+// tails. The family is the complete product of
+//
+//	prefix: 'b' the byte begins the name, 'p' it follows the character N
+//	byte:   every byte 0x01 ... 0xFF (NUL cannot occur in a name): regular
+//	        characters, the number sign, the ten delimiters, the white-space
+//	        characters, the other control characters, DEL and the bytes above
+//	        0x7E - everything a writer has to decide about
+//	tail:   'e' nothing follows; 'h' two hexadecimal digits "41" follow (after
+//	        a number sign that was not escaped they would read as an escape);
+//	        'm' one hexadecimal digit and another character, "4z"; 'z' two
+//	        characters that are no hexadecimal digits, "zz"
+//
+// In the case syntax a name is written "/p23h" (prefix code, the byte in
+// hexadecimal, tail code): the name N#41; "=p23h" is a dictionary entry with
+// that name as its key.
+type nameSpec struct {
+	prefix bool
+	b      byte
+	tail   int
+}
+
+const nameTailCodes = "ehmz"
+
+var nameTails = []string{"", "41", "4z", "zz"}
+var nameTailNames = []string{"end-of-name", "two-hex-digits", "hex-digit+other", "non-hex"}
+
+const numNames = 2 * 255 * 4
+
+func nameSpecOf(idx int) nameSpec {
+	return nameSpec{prefix: idx/(255*4) == 1, b: byte(idx/4%255 + 1), tail: idx % 4}
+}
+
+func (ns nameSpec) index() int {
+	i := (int(ns.b)-1)*4 + ns.tail
+	if ns.prefix {
+		i += 255 * 4
+	}
+	return i
+}
+
+// nameString is the name (as a sequence of bytes) with index idx.
+func nameString(idx int) string {
+	ns := nameSpecOf(idx)
+	s := string([]byte{ns.b}) + nameTails[ns.tail]
+	if ns.prefix {
+		s = "N" + s
+	}
+	return s
+}
+
+func (ns nameSpec) code() string {
+	p := byte('b')
+	if ns.prefix {
+		p = 'p'
+	}
+	return fmt.Sprintf("%c%02x%c", p, ns.b, nameTailCodes[ns.tail])
+}
+
+// parseNameCode reads the four characters after the sigil "/" or "=".
+func parseNameCode(s string) (int, bool) {
+	if len(s) != 4 || s[0] != 'b' && s[0] != 'p' {
+		return 0, false
+	}
+	var b int
+	if _, err := fmt.Sscanf(s[1:3], "%02x", &b); err != nil || b < 1 || b > 255 || strings.ToLower(s[1:3]) != s[1:3] {
+		return 0, false
+	}
+	t := strings.IndexByte(nameTailCodes, s[3])
+	if t < 0 {
+		return 0, false
+	}
+	return nameSpec{s[0] == 'p', byte(b), t}.index(), true
+}
+
+// byteClass names the class of the byte of the family member (fingerprints:
+// the class of a defect in writing names is the class of bytes it mishandles).
+func (ns nameSpec) byteClass() string {
+	c := ns.b
+	switch {
+	case c == '#':
+		return "number-sign"
+	case c == 0 || c == 9 || c == 10 || c == 12 || c == 13 || c == 32:
+		return "white-space"
+	case strings.IndexByte("()<>[]{}/%", c) >= 0:
+		return "delimiter"
+	case c < 0x21:
+		return "control"
+	case c > 0x7e:
+		return "del-or-high"
+	}
+	return "regular"
+}
+
+// nameTag is the part of a fingerprint that says which kind of name went wrong.
+func nameTag(idx int) string {
+	ns := nameSpecOf(idx)
+	return "byte=" + ns.byteClass() + ";next=" + nameTailNames[ns.tail]
+}
+
+// allNames lists the whole family.
+var allNames = func() []int {
+	out := make([]int, numNames)
+	for i := range out {
+		out[i] = i
+	}
+	return out
+}()
 
 // stream variants
 const (
@@ -457,13 +584,17 @@ func (it Item) String() string {
 		return "<" + it.inner().String() + ">"
 	case 'm':
 		return "s"
+	case 'k':
+		return "/" + nameSpecOf(it.R).code()
+	case 'y':
+		return "=" + nameSpecOf(it.R).code()
 	}
 	return string(rune(it.K))
 }
 
 // directOnly: the item can only occur in a direct value built by the caller.
 func (it Item) directOnly() bool {
-	return it.K == 'N' || it.K == 'M' || (it.K == 'A' || it.K == 'T') && it.R < innerStr
+	return it.K == 'N' || it.K == 'M' || (it.K == 'A' || it.K == 'T') && it.R < innerStr && it.R > nestedNameBase
 }
 
 func (o Obj) String() string {
@@ -496,6 +627,8 @@ func (o Obj) String() string {
 	case 'r':
 		b.WriteByte('^')
 		b.WriteString(o.It[0].String())
+	case 'q':
+		b.WriteString(o.It[0].String())
 	}
 	return b.String()
 }
@@ -523,11 +656,33 @@ func parseItems(s string) ([]Item, error) {
 		case c == '~' && i+1 < len(s) && s[i+1] >= '0' && s[i+1] <= '9':
 			out = append(out, Item{'g', int(s[i+1] - '0')})
 			i++
+		case (c == '/' || c == '=') && i+4 < len(s):
+			idx, ok := parseNameCode(s[i+1 : i+5])
+			if !ok {
+				return nil, fmt.Errorf("bad name %q", s[i:i+5])
+			}
+			out = append(out, Item{map[byte]byte{'/': 'k', '=': 'y'}[c], idx})
+			i += 4
 		case c == '[' || c == '<':
 			closer := byte(']')
 			k := byte('A')
 			if c == '<' {
 				closer, k = '>', 'T'
+			}
+			if i+6 < len(s) && (s[i+1] == '/' || s[i+1] == '=' && c == '<') && s[i+6] == closer {
+				// a nested container holding a name of the name family, or (a
+				// dictionary) an entry with such a name as its key
+				idx, ok := parseNameCode(s[i+2 : i+6])
+				if !ok {
+					return nil, fmt.Errorf("bad name in nested container in %q", s)
+				}
+				if s[i+1] == '/' {
+					out = append(out, Item{k, nestedNameBase - idx})
+				} else {
+					out = append(out, Item{k, nestedKeyBase - idx})
+				}
+				i += 6
+				continue
 			}
 			if i+2 >= len(s) || s[i+2] != closer {
 				return nil, fmt.Errorf("bad nested container in %q", s)
@@ -564,6 +719,12 @@ func parseObj(f string) (Obj, error) {
 			return o, fmt.Errorf("empty object")
 		case f == "i" || f == "s" || f == "n" || f == "N" || f == "M":
 			o.K = f[0]
+		case f[0] == '/':
+			o.K = 'q'
+			o.It, err = parseItems(f)
+			if err == nil && (len(o.It) != 1 || o.It[0].K != 'k') {
+				err = fmt.Errorf("bad name object %q", f)
+			}
 		case f[0] == '[' && f[len(f)-1] == ']':
 			o.K = 'A'
 			o.It, err = parseItems(f[1 : len(f)-1])
@@ -623,6 +784,9 @@ func ParseGraph(s string) (Graph, error) {
 			}
 			if it.directOnly() {
 				return nil, fmt.Errorf("item %s only exists in a direct value", it)
+			}
+			if it.K == 'y' && o.K != 'D' && o.K != 'S' {
+				return nil, fmt.Errorf("an entry with a name of the family as its key can only stand in a dictionary")
 			}
 		}
 		if _, isParm := parmOf(o.V); o.K == 'S' && isParm {
@@ -805,6 +969,14 @@ type alphabet struct {
 	// also with an entry /K that refers to an object of the graph
 	chainVariants []int
 	chainK        bool
+	// name family: for every name of the list a name object, the name as the
+	// only element of an array, as the value and as the KEY of the only entry of
+	// a dictionary and of a stream of the variants nameStm, and one level down
+	// (a nested direct array holding the name, a nested direct dictionary
+	// holding it as a value and as a key) inside an array, a dictionary and the
+	// /K entry of such a stream
+	names   []int
+	nameStm []int
 }
 
 var rich = alphabet{name: "rich", items: "isnadxf", scalars: true, empties: true, arr2: true, dict1: true, dict2: true,
@@ -868,6 +1040,12 @@ var chains2Linked = alphabet{name: "filter-chains-2-linked", dict1: true, varian
 	chainVariants: chainVariantsOfLen(2)}
 var chains2LinkedK = alphabet{name: "filter-chains-2-linked+K", dict1: true, variants: []int{stmPlain}, stmBare: true,
 	chainVariants: chainVariantsOfLen(2), chainK: true}
+
+// names is the alphabet of the name family: every name of the family in every
+// placement (see alphabet.names), in plain streams, /FlateDecode streams and
+// streams with an indirect /Length (the three ways the target writer emits a
+// stream dictionary).
+var names = alphabet{name: "names", names: allNames, nameStm: []int{stmPlain, stmFlate, stmIndLength}}
 
 // leanStale, midStale: the same with stale references.
 var leanStale = withStale(lean)
@@ -995,6 +1173,20 @@ func (a alphabet) kinds(n int) []Obj {
 			}
 		}
 	}
+	for _, idx := range a.names {
+		k, y := Item{'k', idx}, Item{'y', idx}
+		nest := []Item{{'A', nestedNameBase - idx}, {'T', nestedNameBase - idx}, {'T', nestedKeyBase - idx}}
+		out = append(out, Obj{K: 'q', It: []Item{k}}, Obj{K: 'A', It: []Item{k}}, Obj{K: 'D', It: []Item{k}}, Obj{K: 'D', It: []Item{y}})
+		for _, v := range a.nameStm {
+			out = append(out, Obj{K: 'S', V: v, It: []Item{k}}, Obj{K: 'S', V: v, It: []Item{y}})
+		}
+		for _, x := range nest {
+			out = append(out, Obj{K: 'A', It: []Item{x}}, Obj{K: 'D', It: []Item{x}})
+			for _, v := range a.nameStm {
+				out = append(out, Obj{K: 'S', V: v, It: []Item{x}})
+			}
+		}
+	}
 	for j := 0; j < n; j++ {
 		out = append(out, Obj{K: 'r', It: []Item{{'r', j}}})
 	}
@@ -1068,6 +1260,9 @@ func objKey(o Obj, perm []int) string {
 	for _, it := range o.It {
 		if j, ok := it.mention(); ok {
 			k = append(k, it.K, byte('0'+perm[j]))
+		} else if it.K == 'k' || it.K == 'y' || it.R <= nestedNameBase {
+			// name family: the member is part of the identity of the item
+			k = append(k, it.K, '/', byte(it.R>>24), byte(it.R>>16), byte(it.R>>8), byte(it.R))
 		} else {
 			k = append(k, it.K, ' ')
 		}
